@@ -155,6 +155,9 @@ func check(rec *hx.Recorder, c optCase, labels map[string]int) (string, bool) {
 			return fmt.Sprintf("option set %03b changed the bytes consumed: %d vs %d\nstream: %s", set, r.consumed, base.consumed, c.Text), false
 		}
 	}
+	var umLo, umHi map[uint16]int
+	var ufLo, ufHi map[[2]uint16]int
+	haveTallies := false
 	for set := 0; set < 8; set++ {
 		r := results[set]
 		if r.nilFile {
@@ -175,10 +178,13 @@ func check(rec *hx.Recorder, c optCase, labels map[string]int) (string, bool) {
 			return fmt.Sprintf("UnknownMessages is non-nil (%v) although WithUnknownMessages was not given (option set %03b)", r.um, set), false
 		}
 		// counts
-		umLo, ufLo := tallies(c.Stream, completed)
-		umHi, ufHi := umLo, ufLo
-		if failing && completed < len(c.Stream.Recs) {
-			umHi, ufHi = tallies(c.Stream, completed+1)
+		if !haveTallies {
+			umLo, ufLo = tallies(c.Stream, completed)
+			umHi, ufHi = umLo, ufLo
+			if failing && completed < len(c.Stream.Recs) {
+				umHi, ufHi = tallies(c.Stream, completed+1)
+			}
+			haveTallies = true
 		}
 		headerRead := base.consumed >= int(data[0])
 		if set&4 != 0 && headerRead && fileIDParsed(base) {
@@ -316,6 +322,28 @@ func TestC16(t *testing.T) {
 			}
 			return
 		}
+		// long runs: one unlisted field number and one unknown message number
+		// carried by tens of thousands of records (the counts are counts of
+		// records, whatever their number)
+		if hx.FirstShard() {
+			for _, n := range []int{256, 65536, 70000} {
+				s := &fitmodel.Stream{HeaderSize: 12, Proto: 0x20, Recs: []fitmodel.Rec{
+					{IsDef: true, Global: 0, Fields: []fitmodel.FieldDef{{Num: 0, Size: 1, Base: 0}}}, {Raw: []byte{4}},
+					{IsDef: true, Local: 1, Global: 20, Fields: []fitmodel.FieldDef{{Num: 3, Size: 1, Base: 2}, {Num: 200, Size: 1, Base: 2}}},
+					{IsDef: true, Local: 2, Global: 0xFF40, Fields: []fitmodel.FieldDef{{Num: 1, Size: 1, Base: 2}}},
+				}}
+				for i := 0; i < n; i++ {
+					s.Recs = append(s.Recs, fitmodel.Rec{Local: 1, Raw: []byte{byte(60 + i%100), byte(i)}}, fitmodel.Rec{Local: 2, Raw: []byte{byte(i)}})
+				}
+				c := optCase{FileType: 4, Stream: s, Chunk: gen.NoFault("whole", 0), Text: fmt.Sprintf("(%d records of message 20 with the unlisted field 200 and %d records of the unknown message 65344)", n, n)}
+				rec.Eval("long-runs", 8)
+				rec.NonTrivialEnum(1)
+				if msg, ok := check(rec, c, map[string]int{}); !ok {
+					rec.Fail("long-runs", "", msg, c)
+				}
+			}
+		}
+
 		hx.RapidCheck(t, rec, "options", func(rt *rapid.T, fail func(string, string, any)) {
 			d := gen.D{T: rt}
 			o := gen.DefaultStreamOpts()
